@@ -12,6 +12,11 @@ def ident (s : String) : Identity :=
 def run (t : List String) : String :=
   match t with
   -- a set of the bundled generator with `--no-expiry` on both sides: its own CA (2) certifies both
+  -- after a second run of the generator for one more client: what is on disk (CA 3 on both sides) works
+  | ["rerun", "rerun"] => if handshake 3 3 (.signedBy 3 "localhost") (.signedBy 3 "localhost") then "accept" else "refuse"
+  -- certificates that lapsed years ago: self-signed, and signed by yet another CA (4)
+  | ["lapsedself", s] => if handshake 0 0 .selfSigned (ident s) then "accept" else "refuse"
+  | ["lapsedother", s] => if handshake 0 0 (.signedBy 4 "localhost") (ident s) then "accept" else "refuse"
   | ["noexp", "noexp"] => if handshake 2 2 (.signedBy 2 "localhost") (.signedBy 2 "localhost") then "accept" else "refuse"
   -- the trusted client certificate in the hands of a client configured with CA 1
   | ["wrongca", s] => if handshake 0 1 (.signedBy 0 "localhost") (ident s) then "accept" else "refuse"
